@@ -95,6 +95,7 @@ class Oracle:
         self.rehanded = set()   # told keys that a committing ask handed out again
         self.open_bounds = set()
         self.no_tri_leaf = False  # before the last ask: some LearnerND leaf had no triangulation (F24's precondition)
+        self.after_f22 = False    # F22 fired: from here on only the clause that is independent of it is judged (check_just_told)
 
     def err(self, signature, msg):
         if all(s != signature for s, _ in self.errors):
@@ -150,7 +151,26 @@ class Oracle:
             self.pending = set()
 
     # -- the clauses
+    def check_just_told(self, l, op):
+        """IMMEDIATELY after tell / tell_many of a point p -- a first tell, a re-tell, also of a point that a listed finding
+        (F22) had made pending although it has a value -- p is not in pending_points.  Independent of F22: judged on every
+        history, also after an F22 event."""
+        if op[0] not in ("tell", "tell_many"):
+            return
+        ad = self.ad
+        pts = [op[1]] if op[0] == "tell" else list(op[1])
+        try:
+            pend = set(ad.pending(l))
+        except Exception:  # noqa: BLE001  (reported by check_state)
+            return
+        bad = [p for p in pts if ad.key(ad.point(p)) in pend]
+        if bad:
+            self.err(sig(self.spec, "told-still-pending-after-tell"),
+                     f"{G.spec_name(self.spec)}: told point still pending after tell: {G.short(op)} left {G.short(bad[0])} in pending_points")
+
     def check_state(self, l, op, snap):
+        if self.after_f22:
+            return
         ad, name = self.ad, G.spec_name(self.spec)
         if G.is_exc(snap["data"]) or isinstance(snap["data"], tuple) and snap["data"][:1] == ("exc",):
             self.err(sig(self.spec, "data-raises"), f"{name}: reading data raised {G.short(snap['data'])} after {G.short(op)}")
@@ -171,7 +191,7 @@ class Oracle:
         if bad and G.base_kind(self.spec) == "Avg1D" and all(k in self.rehanded for k in bad):
             self.err(SIG_F22, f"{name} after {G.short(op)}: the committing ask returned {G.short(bad[0])}, which already has a value, "
                               f"and marked it pending")
-            self.stop = True
+            self.after_f22 = True       # the history goes on; only check_just_told keeps judging
         elif bad and G.base_kind(self.spec) == "LND" and all(k in self.rehanded for k in bad):
             self.err(SIG_F24, f"{name} after {G.short(op)}: the committing ask returned {G.short(bad[0])}, which already has a value, "
                               f"and marked it pending")
@@ -373,9 +393,10 @@ def run_case(args):
             orc.note_discard()
         snap = G.snapshot(ad, l, fresh=True)
         orc.check_state(l, op, snap)
-        if retell is not None and (retell or ad.keeps_first):
+        orc.check_just_told(l, op)
+        if retell is not None and (retell or ad.keeps_first) and not orc.after_f22:
             orc.check_retell(op, before, snap, retell)
-        if op[0] == "remove_unfinished":
+        if op[0] == "remove_unfinished" and not orc.after_f22:
             orc.check_discard(l, op, before, snap)
         if orc.stop or len(orc.errors) >= 3:
             break
@@ -429,9 +450,10 @@ def replay_case(spec, ops):
             orc.note_discard()
         snap = G.snapshot(ad, l, fresh=True)
         orc.check_state(l, op, snap)
-        if retell is not None and (retell or ad.keeps_first):
+        orc.check_just_told(l, op)
+        if retell is not None and (retell or ad.keeps_first) and not orc.after_f22:
             orc.check_retell(op, before, snap, retell)
-        if op[0] == "remove_unfinished":
+        if op[0] == "remove_unfinished" and not orc.after_f22:
             orc.check_discard(l, op, before, snap)
     return orc.errors
 
